@@ -45,7 +45,7 @@ def gen(rng, k):
             elif kind == "udp":
                 L.append("H %d %s %d" % (hid, r.choice(["udp_close", "udp_cancel", "udp_destroy"]), o))
             elif kind == "rslv":
-                L.append("H %d rslv_cancel %d" % (hid, o))
+                L.append("H %d %s %d" % (hid, r.choice(["rslv_cancel", "rslv_destroy"]), o))
             else:
                 L.append("H %d %s %d" % (hid, r.choice(["cancel", "destroy"]), o))
     L.append("M run")
@@ -211,7 +211,7 @@ def handler_oracle(lines, trace):
             kind = "tcp"
         elif op[0] in ("udp_close", "udp_cancel", "udp_destroy"):
             kind = "udp"
-        elif op[0] == "rslv_cancel":
+        elif op[0] in ("rslv_cancel", "rslv_destroy"):
             kind = "rslv"
         elif op[0] in ("cancel", "destroy"):
             kind = "timer"
